@@ -199,6 +199,18 @@ def rule_gt_gtgt(R):
     return out, {}
 
 
+L_CIRCLE = '[ link ]\nresname "A|B"\n[ bonds ]\nBB >BB 1 0.95 950 {"edge": false}\n[ edges ]\nBB >BB {"linktype": "circle"}\n'
+
+
+def rule_circle(R):
+    """a link whose residue edge is labelled: applies only across residue-graph edges that carry the same label"""
+    out = set()
+    for u, v in itertools.permutations(range(R["n"]), 2):
+        if R["edges"].get(frozenset((u, v)), 0) == "circle" and R["rank"][v] > R["rank"][u] and R["names"][u] in "AB" and R["names"][v] in "AB":
+            out.add(("bonds", ((R["rank"][u], "BB"), (R["rank"][v], "BB")), ("1", "0.95", "950")))
+    return out, {}
+
+
 def rule_prev(R):
     out = set()
     for u, v in itertools.permutations(range(R["n"]), 2):
@@ -234,6 +246,7 @@ CATALOGUE = {
     "end cap with non-edge": (L_BOND + L_CAP, rule_cap_after(rule_next_bond("ABD", ("1", "0.40", "400")))),
     "pattern": (L_PATTERN, rule_pattern),
     "resname on some atoms only": (L_ATOM_RESNAME, rule_atom_resname),
+    "labelled (circle) link": (L_CIRCLE, rule_circle),
     "centre with > and >> neighbours": (L_GT_GTGT, rule_gt_gtgt),
     "remove atom at chain start": (L_BOND + L_REMOVE_START, rule_remove(-1)),
     "remove atom at chain end": (L_BOND + L_REMOVE_END, rule_remove(1)),
@@ -242,7 +255,7 @@ CATALOGUE = {
 }
 Q_LINKS = ["next bond", "three-residue angle", "later residue (>)", "other residue (*)", "replace", "end cap with non-edge",
            "same atoms, same version: last wins", "pattern", "remove atom at chain start", "remove atom at chain end",
-           "resname on some atoms only", "centre with > and >> neighbours"]
+           "resname on some atoms only", "centre with > and >> neighbours", "labelled (circle) link"]
 
 
 def observed(meta):
